@@ -1,5 +1,170 @@
 import Rivaas.Proto
-/- Driver for C14 (stub: not built yet) -/
-def main : IO UInt32 := do
-  IO.eprintln "driver for C14 is not built yet"
-  return 2
+import Rivaas.Spec.Config
+/-
+Driver for C14. One case is a history of Loads on one Config (strings hex-encoded):
+
+  <id> CFG <schema> <nValidators> <bound> <n> <probe key>… Z <n> { <field> <zero value> }*
+       L <n> { S <n> { F | O <kvs> }*  B ( N | R | K <n> { <field> <value> }* )
+               FI <n> { <field> <present> <zero> }*  RD <n> <placement>* }*
+    => { L <failed> V <kvs> B <n> { <field> <value> }* G <n> <res>* RD <n> { <consistent> <kvs> }* }*
+
+  <kvs> ::= <n> { <key> ( L <rendering> | M <kvs> ) }*      <res> ::= N | L <rendering> | M
+  placement: 0 pointer taken before the Load and read after it, 1 inside a source's Load,
+  2 inside a custom validator, 3 started under the write lock, 4 after the Load, 9 free-running.
+-/
+namespace Rivaas.DriverC14
+open Rivaas.Proto Rivaas.Config
+
+partial def pKvs : P Kvs := do
+  let n ← nat
+  manyN n (do
+    let k ← str
+    let t ← tok
+    if t == "L" then do
+      let r ← str
+      pure (k, CVal.leaf r)
+    else if t == "M" then do
+      let m ← pKvs
+      pure (k, CVal.map m)
+    else failure)
+
+def pSrc : P SrcResult := do
+  let t ← tok
+  if t == "F" then pure .fail
+  else if t == "O" then SrcResult.ok <$> pKvs
+  else failure
+
+def pPair : P (Bytes × Bytes) := do
+  let a ← str
+  let b ← str
+  pure (a, b)
+
+structure LoadCase where
+  inp : LoadInput
+  readers : List Nat
+
+def pLoad : P LoadCase := do
+  lit "S"
+  let srcs ← list pSrc
+  lit "B"
+  let t ← tok
+  let bind ← if t == "N" then pure none
+    else if t == "R" then pure (some BindOutcome.reject)
+    else if t == "K" then (fun fs => some (BindOutcome.ok fs)) <$> list pPair
+    else failure
+  lit "FI"
+  let fields ← list (do
+    let n ← str
+    let p ← bool
+    let z ← str
+    pure ({ name := n, present := p, zero := z } : FieldInfo))
+  lit "RD"
+  let rds ← list nat
+  pure { inp := { srcs := srcs, bind := bind, fields := fields }, readers := rds }
+
+structure Case where
+  schema : Bool
+  nv : Nat
+  bound : Bool
+  keys : List Bytes
+  /-- the struct passed to `WithBinding` as it is before the first Load (its zero value) -/
+  zero : List (Bytes × Bytes)
+  loads : List LoadCase
+
+def pCase : P Case := do
+  lit "CFG"
+  let schema ← bool
+  let nv ← nat
+  let bound ← bool
+  let keys ← list str
+  lit "Z"
+  let zero ← list pPair
+  lit "L"
+  let loads ← list pLoad
+  pure { schema := schema, nv := nv, bound := bound, keys := keys, zero := zero, loads := loads }
+
+def pRes : P Res := do
+  let t ← tok
+  if t == "N" then pure .none
+  else if t == "M" then pure .isMap
+  else if t == "L" then Res.leaf <$> str
+  else failure
+
+structure Obs where
+  load : LoadObs
+  readers : List (Bool × Kvs)
+
+def pObs1 (keys : List Bytes) : P Obs := do
+  lit "L"
+  let failed ← bool
+  lit "V"
+  let vals ← pKvs
+  lit "B"
+  let bound ← list pPair
+  lit "G"
+  let gets ← list pRes
+  lit "RD"
+  let rds ← list (do let ok ← bool; let m ← pKvs; pure (ok, m))
+  pure { load := { failed := failed, values := vals, bound := bound, gets := keys.zip gets }, readers := rds }
+
+partial def pObsAll (keys : List Bytes) : P (List Obs) := do
+  match ← peek with
+  | none => pure []
+  | some _ => do
+    let o ← pObs1 keys
+    let rest ← pObsAll keys
+    pure (o :: rest)
+
+/-- the model of the code as it is in the repository now -/
+def modelLoad (c : Case) (st : State) (inp : LoadInput) : State × Stage := load c.schema c.nv st inp
+
+def zeroBound (c : Case) : List (Bytes × Bytes) := c.zero
+
+def encRes : Res → String
+  | .none => "N"
+  | .isMap => "M"
+  | .leaf r => "L " ++ encStr r
+
+/-- compare one Load: model vs implementation (`mi`), oracle on the implementation (`s`) -/
+def stepLoad (c : Case) (st : State) (prevV : Kvs) (prevB : List (Bytes × Bytes)) (lc : LoadCase) (o : Obs) :
+    State × Bool × Bool × String :=
+  let (st', stage) := modelLoad c st lc.inp
+  let mFailed := stage != .ok
+  let mGets := c.keys.map fun k => classify (get st'.values k)
+  -- readers: placements 0,1,2 read the map installed before this Load's commit, 3,4 the one after
+  let mReaders := lc.readers.map fun pl => if pl ≤ 2 then st.values else st'.values
+  let rdMI := (lc.readers.zip (mReaders.zip o.readers)).all fun (pl, m, (_, seen)) =>
+    if pl == 9 then kvsEq seen st.values || kvsEq seen st'.values else kvsEq seen m
+  let mi := (o.load.failed == mFailed) && kvsEq o.load.values st'.values &&
+    (!c.bound || o.load.bound == st'.bound) && (o.load.gets.map (·.2) == mGets) && rdMI
+  let s := loadOK c.schema c.nv prevV prevB lc.inp o.load &&
+    o.readers.all fun (ok, seen) => ok && readerOK prevV o.load.values seen
+  (st', mi, s, s!"L {if mFailed then 1 else 0} G {mGets.length}" ++ String.join (mGets.map fun r => " " ++ encRes r))
+
+def runCase (c : Case) (obs : List Obs) : Bool × Bool × String :=
+  let rec go (st : State) (prevV : Kvs) (prevB : List (Bytes × Bytes)) :
+      List LoadCase → List Obs → Bool × Bool × String
+    | [], [] => (true, true, "")
+    | lc :: ls, o :: os =>
+      let (st', mi, s, txt) := stepLoad c st prevV prevB lc o
+      let (mi2, s2, txt2) := go st' o.load.values o.load.bound ls os
+      (mi && mi2, s && s2, txt ++ " " ++ txt2)
+    | _, _ => (false, false, "length-mismatch")
+  go { values := [], bound := if c.bound then zeroBound c else [] } [] (if c.bound then zeroBound c else []) c.loads obs
+
+def step (line : String) : String :=
+  match splitCase line with
+  | none => "? bad-line"
+  | some (id, inp, obs) =>
+    match runP pCase inp with
+    | some c =>
+      match runP (pObsAll c.keys) obs with
+      | some os =>
+        let (mi, s, txt) := runCase c os
+        verdict id mi s "-" (if mi && s then "" else txt)
+      | none => s!"{id} bad-case (observation)"
+    | none => s!"{id} bad-case (input)"
+
+end Rivaas.DriverC14
+
+def main : IO UInt32 := Rivaas.Proto.driverMain Rivaas.DriverC14.step
